@@ -48,6 +48,8 @@ def cases(ctx):
         if not ctx.time_left():
             break
         yield 'tree', {'i': i}
+        if i % 50 == 0:
+            yield 'churn', {'i': i}
 
 
 def bases_for(rm):
@@ -134,6 +136,36 @@ def oracle(ctx, kind, p):
         del m
         ctx.case(ctx.current, True)
         ctx.count('trees')
+    elif kind == 'churn':
+        # short-lived models whose tables disagree about the same role texts, one after the other
+        # on the same tree (and through the role-level API)
+        from penman.model import Model
+        from pmon.ref.model import RefModel
+        rng = ctx.rng('churn', p['i'])
+        node = ('a', [('/', 'x'), (':r0-of', ('b', [('/', 'y'), ('r1-of-of-of', 'a'), (':k-of', 'c~e.1')])),
+                      (':m-n-of~e.2', ('c', [('/', 'z'), (':x-of', 'a')]))])
+        tables = [
+            {'roles': {':r0': {}, ':r1': {}, ':k': {}}, 'normalizations': {':r0-of': ':r1', ':r1-of': ':k'}},
+            {'roles': {':r0': {}, ':r2': {}, ':x-of': {}}, 'normalizations': {':r0-of': ':r2', ':k-of': ':r0'}},
+            {'roles': {':m-n-of': {}, ':k': {}}, 'normalizations': {':m-n-of-of': ':k'}},
+            {'roles': {}, 'normalizations': {}},
+        ]
+        for k in range(24):
+            spec = tables[(k + p['i']) % len(tables)] if k % 2 else rng.choice(tables)
+            m = Model(roles=spec['roles'], normalizations=spec['normalizations'])
+            rm = RefModel(roles=list(spec['roles']), normalizations=spec['normalizations'], name=f'churn{k}')
+            ctx.current = ['treecase', {'tree': T.to_json(node), 'model': 'churn'}]
+            check_tree(ctx, node, f'churn-table-{tables.index(spec)}', m, rm)
+            for role in (':r0-of', ':k-of', ':x-of', ':m-n-of', ':m-n-of-of', ':r1-of-of-of'):
+                for name_, got, want in (('is_role_inverted', m.is_role_inverted(role), rm.inverted(role)),
+                                         ('has_role', m.has_role(role), rm.has_role(role)),
+                                         ('canonicalize_role', m.canonicalize_role(role), rm.canon_role(role))):
+                    if got != want and (name_ != 'canonicalize_role' or _rbase_ok(rm, role)):
+                        ctx.fail(f'{name_}!=reference(model churn)', mech=role,
+                                 detail={'role': role, 'got': got, 'want': want, 'table': spec})
+            del m
+        ctx.count('short_lived_models', 24)
+        ctx.case(('churn', p['i']), True)
     elif kind == 'treecase':
         check_tree(ctx, T.from_json(p['tree']), p['model'])
         ctx.case(p, True)
@@ -215,6 +247,14 @@ def check_tree(ctx, node, name, m=None, rm=None):
                       n=T.size(node))
     if not ok:
         return
+    if len(node[1]) % 3 == 0:
+        # the same tree with list nodes (after a JSON round trip) is canonicalised alike
+        nested = T.listify(node)
+        ok_l, tl = ctx.call(transform.canonicalize_roles, Tree((nested[0], nested[1])), m,
+                            clause='canonicalize_roles(list nodes)')
+        if ok_l and T.tuplify(tl.node) != T.tuplify(t2.node):
+            ctx.fail('canonicalize_roles:list-nodes-differ', detail={'model': name, 'tree': repr(node)[:400],
+                                                                    'got': repr(tl.node)[:400]})
     det = {'model': name, 'before': repr(node)[:500], 'after': repr(t2.node)[:500]}
     if shape(t2.node) != shape(node):
         ctx.fail('canonicalize_roles:changed-more-than-roles', detail=det)
